@@ -116,8 +116,36 @@ theorem sum_perm {α : Type} [DecidableEq α] (l₁ l₂ : List α) (h₁ : l₁
     (hs : l₁.toFinset = l₂.toFinset) (f : α → ℝ) : (l₁.map f).sum = (l₂.map f).sum := by
   rw [sum_enum l₁ h₁ f, sum_enum l₂ h₂ f, hs]
 
+/-- two flat-maps over the same list whose per-item pieces have equal lengths have equal length;
+    applied to every prefix of the element list this gives equal offsets: result k of the compiled
+    function sits at the position of state argument k (C04, closing induction of
+    contracts/layout_tasks.py) -/
+theorem flatMap_length_congr {α β γ : Type} (l : List α) (f : α → List β) (g : α → List γ)
+    (h : ∀ a ∈ l, (f a).length = (g a).length) : (l.flatMap f).length = (l.flatMap g).length := by
+  induction l with
+  | nil => simp
+  | cons a t ih =>
+    simp only [List.flatMap_cons, List.length_append]
+    rw [h a (by simp), ih (fun b hb => h b (by simp [hb]))]
+
+/-- a term of a sum of non-negative terms is at most the sum (lemma:sum-membership, S1; C06) -/
+theorem term_le_sum_range (f : ℕ → ℝ) (hf : ∀ j, 0 ≤ f j) (n i : ℕ) (hi : i < n) :
+    f i ≤ ∑ j ∈ Finset.range n, f j :=
+  Finset.single_le_sum (fun j _ => hf j) (Finset.mem_range.mpr hi)
+
+/-- a positive sum has a positive term (lemma:sum-membership, S2; C06) -/
+theorem exists_pos_of_sum_range_pos (f : ℕ → ℝ) (n : ℕ) (h : 0 < ∑ j ∈ Finset.range n, f j) :
+    ∃ i, i < n ∧ 0 < f i := by
+  by_contra hc
+  simp only [not_exists, not_and, not_lt] at hc
+  have : ∑ j ∈ Finset.range n, f j ≤ 0 :=
+    Finset.sum_nonpos (fun j hj => hc j (Finset.mem_range.mp hj))
+  linarith
+
 end Metanet
 
 #print axioms Metanet.fd_max
 #print axioms Metanet.network_balance
 #print axioms Metanet.sum_perm
+#print axioms Metanet.flatMap_length_congr
+#print axioms Metanet.exists_pos_of_sum_range_pos
